@@ -269,6 +269,12 @@ func compileComments(comments []*commentBlock, node nodeContainer) []*commentBlo
 		comments = attachComments(comments, n.getNode())
 		comments = compileComments(comments, n)
 	}
+	if bind, ok := node.(*BindStm); ok && bind.Exp != nil {
+		// A comment between the '=' (or 'split') and the value would be
+		// lost, since values are not formatted with their own comments.
+		// Keep it with the binding.
+		hoistComments(&bind.Node, bind.Exp)
+	}
 	if len(nodes) > 0 && node.inheritComments() {
 		nodes[0].getNode().scopeComments = append(
 			node.(AstNodable).getNode().scopeComments,
@@ -278,4 +284,20 @@ func compileComments(comments []*commentBlock, node nodeContainer) []*commentBlo
 			nodes[0].getNode().Comments...)
 	}
 	return comments
+}
+
+// hoistComments moves the comments attached to an expression itself (not
+// those of the elements of a collection) to the given node.
+func hoistComments(to *AstNode, exp Exp) {
+	if exp == nil {
+		return
+	}
+	if n := exp.getNode(); n != nil && n != to {
+		to.scopeComments = append(to.scopeComments, n.scopeComments...)
+		to.Comments = append(to.Comments, n.Comments...)
+		n.scopeComments, n.Comments = nil, nil
+	}
+	if s, ok := exp.(*SplitExp); ok {
+		hoistComments(to, s.Value)
+	}
 }
